@@ -82,6 +82,7 @@ namespace vs {
     };
     inline int err_code(std::exception_ptr const& ep)
     {
+        if (!ep) return -2;    // a null exception_ptr on the error channel (e.g. the error object was destroyed before delivery)
         try
         {
             std::rethrow_exception(ep);
